@@ -6,6 +6,7 @@ the oracle is a direct position check.  Names are written as string literals by 
 import io
 import os
 import random
+import re
 import shutil
 import sqlite3
 import subprocess
@@ -23,7 +24,7 @@ HEADERS = {'quick': 1500, 'thorough': 20000}
 NSHARDS = {'quick': 12, 'thorough': 24}
 
 ALPHABET = list('abcXYZ019_ -+*/%#=!?.,:;()[]{}<>|&^~@$') + ['"', "'", '\\', '`', '\t', 'é', 'ß', '€', '名', ' ']
-IDENT_POOL = ['name', 'age', 'x', 'X', 'x1', 'x10', 'name2', 'Name', 'NAME', '_id', 'id_', 'value', 'val', 'va', 'total', 'home_town', 'c', 'k9', 'zz', 'col1', 'a_', 'b_1', 'ab', 'length2', 'idx']
+IDENT_POOL = ['name', 'age', 'x', 'X', 'x1', 'x10', 'name2', 'Name', 'NAME', '_id', 'id_', 'value', 'val', 'va', 'total', 'home_town', 'c', 'k9', 'zz', 'col1', 'a_', 'b_1', 'ab', 'length2', 'idx', 'NR', 'NF', 'NU', 'nr', 'aNR', 'bNR', 'length', 'constructor', 'toString', '__proto__', 'hasOwnProperty', 'None', 'null', 'undefined', 'a1', 'b2', 'a', 'b']
 RESERVED_DIRECT = {'NR', 'NF', 'NU', 'a', 'b', 'e', 'record_a', 'record_b', 'query_context', 'stop_flag', 'star_fields', 'out_fields', 'sort_key', 'key', 'udf', 'like', 'unnest', 'count', 'sum', 'min', 'max', 'avg', 'median', 'variance', 'array_agg', 'any_value', 'up_fields', 'join_matches', 'join_match', 'bNR', 'bNF', 'aNR', 'select_simple', 'select_unnested', 'safe_get', 'len', 'str', 'int', 'x'} | qast.PY_KEYWORDS
 
 
@@ -47,7 +48,7 @@ def gen_header(rng, allow_newline=False):
         if names and r < 0.25:
             base = rng.choice(names)
             nm = rng.choice([base + rng.choice(['x', ' ', '"', '1']), base[:-1] if len(base) > 1 else base + '_', base.swapcase(), rng.choice(['x', ' ']) + base])
-        if nm in names or nm == '' or gq.has_ab_token(nm) or nm.startswith('﻿'):
+        if nm in names or (nm == '' and rng.random() < 0.8) or gq.has_ab_token(nm) or nm.startswith('﻿'):
             continue
         names.append(nm)
     return names
@@ -142,7 +143,7 @@ def _leg_lists(ns, res, spec, rng, node, js_batch):
                 if r['error'] is not None or got != exp:
                     res.violation('py:named-%s-wrong-column:%s' % (kind, style), 'query_table(%r, header %r) -> %r error %s ; expected %r' % (qtext, names, got, r['error'] and r['error_msg'], exp), {'leg': 'named', 'names': names, 'col': col, 'query_text': qtext})
         # direct mode: the bare name denotes the column
-        idents = [nm for nm in names if qast.is_identifier(nm) and nm not in RESERVED_DIRECT]
+        idents = [nm for nm in names if qast.is_identifier(nm) and nm not in RESERVED_DIRECT and not re.fullmatch(r'[ab][0-9]+', nm)]
         if len(idents) == len(names):
             ok_direct = not any(a != b and a in b for a in names for b in names)   # a name that is a substring of another one is still fine, only counted
             for col, nm in enumerate(names):
